@@ -8,8 +8,11 @@ namespace vf {
 using namespace c13;
 
 // ------------------------------------------------------------------ std::vector<int>, appending policies
-struct VecUpdatePolicy {
-  std::vector<int> create() const { return std::vector<int>(); }
+struct VecUpdatePolicy {   // STATEFUL: every summary it creates starts with the policy's tag
+  int tag = 0;
+  VecUpdatePolicy() {}
+  explicit VecUpdatePolicy(int t): tag(t) {}
+  std::vector<int> create() const { return std::vector<int>(1, tag); }
   void update(std::vector<int>& s, const int& v) const { s.push_back(v); }
 };
 struct VecMergePolicy {   // union / intersection: append the incoming summary to the internal one
@@ -62,7 +65,7 @@ struct VecT {
   static const char* name() { return "vector"; }
   static int id() { return 2; }
   using Summary = std::vector<int>; using UV = int; using M = std::vector<int>;
-  struct Cfg {};
+  struct Cfg { int tag = 0; };
   using UpdateSketch = update_tuple_sketch<std::vector<int>, int, VecUpdatePolicy>;
   using CompactSketch = compact_tuple_sketch<std::vector<int>>;
   using BaseCompact = CompactSketch;
@@ -71,11 +74,11 @@ struct VecT {
   using ANotB = tuple_a_not_b<std::vector<int>>;
   static const bool anotb_accepts_base_a = true;
 
-  static Cfg gen_cfg(Rng&) { return Cfg(); }
-  static std::string cfg_str(const Cfg&) { return ""; }
+  static Cfg gen_cfg(Rng& r) { Cfg c; c.tag = static_cast<int>(r.range(-2000000000, 2000000000)); return c; }
+  static std::string cfg_str(const Cfg& c) { return "policy-tag=" + std::to_string(c.tag); }
   static UV gen_uv(Rng& r, const Cfg&) { return static_cast<int>(r.range(-1000000, 1000000)); }
   static std::string uv_str(const UV& v) { return std::to_string(v); }
-  static M m_create(const Cfg&) { return M(); }
+  static M m_create(const Cfg& c) { return M(1, c.tag); }
   static void m_update(M& m, const UV& v) { m.push_back(v); }
   static void m_merge(M& m, const M& o) { m.insert(m.end(), o.begin(), o.end()); }
   static M read(const Summary& s) { return s; }
@@ -89,14 +92,14 @@ struct VecT {
   static bool pred(const M& m, int param) {
     switch (param) {
       case 0: return m.size() % 2 == 1;
-      case 1: return !m.empty() && m.front() % 2 == 0;
+      case 1: return !m.empty() && m.back() % 2 == 0;
       case 2: { long long s = 0; for (int v : m) s += v; return s > 0; }
       default: return false;
     }
   }
   static Summary make_summary(const M& m, const Cfg&) { return m; }
-  static UpdateSketch make_update(const Cfg&, uint8_t lg_k, int rf, float p, uint64_t seed) {
-    return UpdateSketch::builder().set_lg_k(lg_k).set_resize_factor(static_cast<theta_constants::resize_factor>(rf)).set_p(p).set_seed(seed).build();
+  static UpdateSketch make_update(const Cfg& c, uint8_t lg_k, int rf, float p, uint64_t seed) {
+    return UpdateSketch::builder(VecUpdatePolicy(c.tag)).set_lg_k(lg_k).set_resize_factor(static_cast<theta_constants::resize_factor>(rf)).set_p(p).set_seed(seed).build();
   }
   static void do_update(UpdateSketch& sk, const Val& key, const UV& uv, Rng& r, const Cfg&) {
     if (r.coin()) apply_update2(sk, key, uv); else { int tmp = uv; apply_update2(sk, key, std::move(tmp)); }
